@@ -55,7 +55,7 @@ def val_for(r, cls, name, present):
     if n in ('leading_comment', 'trailing_comment'):
         return r.choice(['c', 'two\nlines', '', 'a\n \nb', ' ', 'x\n\t\ny', 'tail\n']) if present else None
     if n == 'inline_comment':
-        return r.choice(['x', '', 'a;b']) if present else None
+        return r.choice(['x', '', 'a;b', 'padded  ', 'x\t', '\tleading tab']) if present else None
     if n == 'meta':
         if not present:
             return None
@@ -172,6 +172,12 @@ def check_one(cls, m, where):
         again = edits.P().parse(text, cls, auto_claim_comments=True)
     except Exception as e:
         out.append((f'C15:does-not-parse:{cls.__name__}', f'{type(e).__name__} on {text!r}'))
+        return out
+    # inline comments exactly (a constructed model has no blanks after the comment that could be taken for part of it)
+    ia = [t.value for t in m.token_store if isinstance(t, models.InlineComment)]
+    ib = [t.value for t in again.token_store if isinstance(t, models.InlineComment)]
+    if ia != ib:
+        out.append((f'C15:reparse-inline-comment:{cls.__name__}', f'inline comments {ia!r} re-read as {ib!r} text={text!r}'))
         return out
     a, b = session.reparse_struct(m), session.reparse_struct(again)
     if a != b:
